@@ -26,6 +26,11 @@ mod client;
 mod codec;
 mod pool_tracker;
 
+/// Verification hooks: crate-visible re-exports of items of the private `codec` /
+/// `pool_tracker` sub-modules.
+#[cfg(eigerco_lumina_verif)]
+pub(crate) mod verif_shim {}
+
 use crate::p2p::P2pError;
 use crate::p2p::shrex::client::Client;
 use crate::p2p::shrex::pool_tracker::{EdsNotification, PoolTracker};
